@@ -451,7 +451,7 @@ func Main(r *core.Run) {
 		maxLen = 3
 	}
 	ps := paths(maxLen)
-	r.Rule(fmt.Sprintf("%d graphs (trees ≤%d nodes, every cut ≤2 into blocks, dangling links) × every path of ≤%d segments over %v (%d paths: existing positions, new keys, list append, out of range, through links, missing parents, scalar in the middle) × replacement {scalar,map,list,identity,remove} × createParents {on,off}; WalkTransforming with every selector ≤3 clauses × {identity, constant, wrap}; sequences of 2 focused transforms. Non-trivial = target reachable (result compared structurally); distinct by (graph, path, replacement, flag).", len(gs), map[bool]int{true: 4, false: 5}[quick], maxLen, segAlphabet, len(ps)))
+	r.Rule(fmt.Sprintf("%d graphs (trees ≤%d nodes, every cut ≤2 into blocks, dangling links) × every path of ≤%d segments over %v (%d paths: existing positions, new keys, list append, out of range, through links, missing parents, scalar in the middle) × replacement {scalar,map,list,identity,remove} × createParents {on,off}; WalkTransforming with every selector ≤3 clauses and five record-shaped ones × {identity, constant, wrap}, each compiled selector used twice (second result = first), over the graphs plus record lists in which one selector step meets several nodes; sequences of 2 focused transforms. Non-trivial = target reachable (result compared structurally); distinct by (graph, path, replacement, flag).", len(gs), map[bool]int{true: 4, false: 5}[quick], maxLen, segAlphabet, len(ps)))
 	r.Assume("reference functional update mc/props/c16 (replace in place, new map key at the end, '-' appends, nil removes, parents only when requested, links re-hashed by hand with crypto/sha256 over the reference DAG-CBOR encoding)")
 	r.Assume("unspecified and excluded: removal of the root itself; non-canonical list indices (\"-1\", \"01\")")
 	core.ParallelFor(len(gs), func(gi int) {
